@@ -35,6 +35,7 @@ type vProxy struct {
 	listCalls  int
 	listFailEmptyBody bool
 	settle     bool
+	garbageList bool
 	requests   map[string][]byte        // wire form of the stored client requests
 	user       map[string]string        // asserted user per request
 	uploads    map[string]*http.Response // parsed response uploads per request id
@@ -82,6 +83,12 @@ func (p *vProxy) RoundTrip(req *http.Request) (*http.Response, error) {
 			return vPlain(200, "[]", nil), nil
 		}
 		b, _ := json.Marshal(p.lists[i])
+		if p.garbageList && i == 0 {
+			// a garbled reply is followed by the intact one on the next poll
+			p.garbageList = false
+			p.listCalls--
+			return vPlain(200, "[\"victim\", <garbage", nil), nil
+		}
 		return vPlain(200, string(b), nil), nil
 	case strings.HasSuffix(req.URL.Path, utils.RequestPath):
 		switch p.fetchFault[id] {
@@ -336,6 +343,7 @@ type vChunkBody struct {
 	atEOF  func()
 	done   bool
 	before func(i int)
+	waited map[int]bool
 }
 
 func (b *vChunkBody) Read(p []byte) (int, error) {
@@ -451,3 +459,161 @@ func VerifDebugFetch() {
 	}, nil)
 	rt.Debug("ReadRequest", err)
 }
+
+// ---------------------------------------------------------------------------
+// HU-5 (C05): responses stream through the agent chunk by chunk. The backend
+// produces chunk j only after the proxy has observed chunk j-1 in the upload
+// body; if anything on the way waits for more output (or for the end of the
+// response) before relaying what was flushed, the run deadlocks, which the engine
+// reports.
+
+func VerifC05Streaming() {
+	vResetFlags()
+	prox := newVProxy()
+	backend := &vBackend{}
+	http.DefaultTransport = backend
+	client := &http.Client{Transport: prox}
+	shim := rt.Param("shim", 0) == 1
+	shimPath := ""
+	if shim {
+		shimPath = "shim"
+		*shimWebsockets = true
+	}
+	hp, err := hostProxy(context.Background(), *host, shimPath, shim, false)
+	rt.Assert(err == nil, "C05.handler-chain-built")
+
+	sizes := []int{1, 3, 5}
+	n := rt.Int("nchunks", 1, rt.Param("chunks", 3))
+	var chunks []string
+	total := 0
+	for i := 0; i < n; i++ {
+		sz := sizes[rt.Choice("size"+rt.Itoa(i), len(sizes))]
+		// chunk i consists of sz+1 copies of a byte that occurs nowhere else in the upload
+		c := strings.Repeat(string([]byte{byte(0xf0 + i)}), sz+1)
+		chunks = append(chunks, c)
+		total += len(c)
+	}
+	full := strings.Join(chunks, "")
+	observed := make(chan int, 8)
+	seen := 0
+	prox.onUploadRead = func(id string, all []byte) {
+		for seen < len(chunks) && bytes.Count(all, []byte{byte(0xf0 + seen)}) == len(chunks[seen]) {
+			observed <- seen
+			seen++
+		}
+	}
+	hdr := http.Header{}
+	if rt.Bool("declaresContentLength") {
+		hdr.Set("Content-Length", rt.Itoa(total))
+	}
+	if rt.Bool("isHTML") {
+		hdr.Set("Content-Type", "text/html")
+	}
+	backend.respond = func(r *http.Request) (*http.Response, error) {
+		body := &vChunkBody{chunks: append([]string{}, chunks...)}
+		body.before = func(i int) {
+			if i > 0 && !body.waited[i] {
+				body.waited[i] = true
+				<-observed // chunk i-1 has reached the proxy
+			}
+		}
+		body.waited = map[int]bool{}
+		cl := int64(-1)
+		if hdr.Get("Content-Length") != "" {
+			cl = int64(total)
+		}
+		return &http.Response{StatusCode: 200, Proto: "HTTP/1.1", ProtoMajor: 1, ProtoMinor: 1, Header: hdr, Body: body, ContentLength: cl, Request: r}, nil
+	}
+	prox.store("id1", &http.Request{Method: "GET", URL: &url.URL{Path: "/stream"}, Host: "service.example.com", Header: http.Header{}, Body: http.NoBody,
+		Proto: "HTTP/1.1", ProtoMajor: 1, ProtoMinor: 1}, "user@example.com")
+	processOneRequest(client, hp, "backend-1", "id1")
+	rt.Assert(seen == len(chunks), "C05.every-flushed-chunk-reached-the-proxy-before-the-next-was-produced")
+	rt.Assert(prox.uploads["id1"] != nil && strings.Contains(prox.uploadBody["id1"], full[len(full)-1:]), "C05.response-completed")
+	if !shim || hdr.Get("Content-Type") == "" {
+		rt.Assert(prox.uploadBody["id1"] == full, "C05.body-complete-and-in-order")
+	}
+	rt.Cover("C05.streamed")
+}
+
+// ---------------------------------------------------------------------------
+// HA-7 (C07): one failing request never takes down the agent or other requests.
+
+func VerifC07Faults() {
+	prox, backend, client, hp := vSetup()
+	ids := []string{"victim", "healthy1", "healthy2"}
+	for _, id := range ids {
+		prox.store(id, &http.Request{Method: "GET", URL: &url.URL{Path: "/" + id}, Host: "service.example.com", Header: http.Header{}, Body: http.NoBody,
+			Proto: "HTTP/1.1", ProtoMajor: 1, ProtoMinor: 1}, "user@example.com")
+	}
+	fault := rt.Choice("fault", 11)
+	switch fault {
+	case 0:
+		prox.fetchFault["victim"] = "error"
+	case 1:
+		prox.fetchFault["victim"] = "500"
+	case 2:
+		prox.fetchFault["victim"] = "404"
+	case 3:
+		prox.fetchFault["victim"] = "badtime"
+	case 4:
+		prox.fetchFault["victim"] = "garbage"
+	case 5:
+		prox.uploadFault["victim"] = "error"
+	case 6:
+		prox.uploadFault["victim"] = "500"
+	}
+	backend.respond = func(r *http.Request) (*http.Response, error) {
+		if r.URL.Path == "/victim" {
+			switch fault {
+			case 7:
+				return nil, errors.New("dial tcp: connection refused")
+			case 8: // the backend breaks off after the headers
+				return &http.Response{StatusCode: 200, Proto: "HTTP/1.1", ProtoMajor: 1, ProtoMinor: 1, Header: http.Header{}, Body: &vFailingBody{data: "", err: errors.New("connection reset")}, ContentLength: -1, Request: r}, nil
+			case 9: // ... or in the middle of the body
+				return &http.Response{StatusCode: 200, Proto: "HTTP/1.1", ProtoMajor: 1, ProtoMinor: 1, Header: http.Header{}, Body: &vFailingBody{data: "partial", err: errors.New("unexpected EOF")}, ContentLength: 100, Request: r}, nil
+			}
+		}
+		return vResponse(r, 200, http.Header{"X-For": []string{r.URL.Path}}, "answer:"+r.URL.Path), nil
+	}
+	prox.lists = [][]string{{"victim", "healthy1"}, {"healthy2"}}
+	prox.listFail = []bool{false, false}
+	if fault == 10 { // garbage in the pending list itself
+		prox.lists = [][]string{{"victim", "healthy1"}, {"healthy2"}}
+		prox.garbageList = true
+	}
+	prox.settle = true
+	ctx, cancel := context.WithCancel(context.Background())
+	prox.afterLists = cancel
+	pollForNewRequests(ctx, client, hp, "backend-1")
+	rt.Quiesce()
+	// the healthy requests are served completely and correctly
+	for _, id := range []string{"healthy1", "healthy2"} {
+		up := prox.uploads[id]
+		rt.Assert(up != nil, "C07.healthy-request-is-answered")
+		if up != nil {
+			rt.Assert(up.StatusCode == 200 && prox.uploadBody[id] == "answer:/"+id && up.Header.Get("X-For") == "/"+id, "C07.healthy-request-gets-its-own-complete-response")
+		}
+	}
+	if fault == 7 {
+		rt.Cover("C07.backend-unreachable")
+		up := prox.uploads["victim"]
+		rt.Assert(up != nil && up.StatusCode == 502, "C07.unreachable-backend-yields-502")
+	}
+	rt.Cover("C07.fault-survived")
+	_ = backend
+}
+
+type vFailingBody struct {
+	data string
+	err  error
+}
+
+func (b *vFailingBody) Read(p []byte) (int, error) {
+	if b.data != "" {
+		n := copy(p, b.data)
+		b.data = b.data[n:]
+		return n, nil
+	}
+	return 0, b.err
+}
+func (b *vFailingBody) Close() error { return nil }
